@@ -25,6 +25,7 @@ package proxy
 import (
 	"context"
 	"fmt"
+	"github.com/go-logr/logr"
 	"net"
 	"runtime"
 	"sort"
@@ -98,9 +99,13 @@ func (c *c12NetConn) Write(b []byte) (int, error) {
 		return len(b), nil
 	}
 }
-func (c *c12NetConn) Close() error                     { c.once.Do(func() { close(c.closed) }); return nil }
-func (c *c12NetConn) LocalAddr() net.Addr              { return &net.TCPAddr{IP: net.IPv4(127, 0, 0, 1), Port: 25565} }
-func (c *c12NetConn) RemoteAddr() net.Addr             { return &net.TCPAddr{IP: net.IPv4(127, 0, 0, 1), Port: c.port} }
+func (c *c12NetConn) Close() error { c.once.Do(func() { close(c.closed) }); return nil }
+func (c *c12NetConn) LocalAddr() net.Addr {
+	return &net.TCPAddr{IP: net.IPv4(127, 0, 0, 1), Port: 25565}
+}
+func (c *c12NetConn) RemoteAddr() net.Addr {
+	return &net.TCPAddr{IP: net.IPv4(127, 0, 0, 1), Port: c.port}
+}
 func (c *c12NetConn) SetDeadline(time.Time) error      { return nil }
 func (c *c12NetConn) SetReadDeadline(time.Time) error  { return nil }
 func (c *c12NetConn) SetWriteDeadline(time.Time) error { return nil }
@@ -148,6 +153,7 @@ type c12Player struct {
 	reg  *c12Ent
 	on   int     // server list index it is on (-1 none)
 	mem  *c12Ent // membership interval
+	back *backendPlaySessionHandler
 }
 
 func c12NewWorld(nServers int, kick bool) *c12World {
@@ -217,7 +223,10 @@ func (w *c12World) leave(cp *c12Player, byProxy bool) {
 func (w *c12World) listAdd(cp *c12Player, s int) *c12Ent {
 	e := &c12Ent{name: cp.reg.name, ok: true, outB: c12Inf, outE: c12Inf}
 	e.inB = w.now()
-	w.srv[s].players.add(cp.pl)
+	// as in production: the backend play session handler of the player's connection
+	// to that server puts the player on the server's list when it is activated ...
+	cp.back = &backendPlaySessionHandler{serverConn: &serverConnection{server: w.srv[s], player: cp.pl, log: logr.Discard()}, log: logr.Discard()}
+	cp.back.Activated()
 	e.inE = w.now()
 	cp.on, cp.mem = s, e
 	return e
@@ -228,7 +237,11 @@ func (w *c12World) listRemove(cp *c12Player) {
 		return
 	}
 	cp.mem.outB = w.now()
-	w.srv[cp.on].players.remove(cp.pl)
+	// ... and takes the player off it when that connection closes (here: closed by
+	// the proxy for a server switch, so the player itself is left alone)
+	cp.back.serverConn.gracefulDisconnect.Store(true)
+	cp.back.Disconnected()
+	cp.back = nil
 	cp.mem.outE = w.now()
 	cp.on, cp.mem = -1, nil
 }
@@ -869,6 +882,6 @@ func c12Gen(t *rapid.T) c12Case {
 
 func TestVerif_C12(t *testing.T) {
 	verifkit.Check(t, "C12", "listing",
-		"scenario: 0-48 stable players and 1-3 servers, default registration or onlineModeKickExistingPlayers; 1-6 writer goroutines (join via canRegisterConnection/registerConnection, put on / move between / take off server player lists, leave via connection close or Player.Disconnect - all through the real teardown path - and Register/Unregister of extra servers) against 1-6 reader goroutines cycling Players, PlayerCount, Servers, Players().Range/Len, PlayersToSlice and up to 2 DisconnectAll calls; 200-400 ops each (2000 thorough), GOMAXPROCS in {2,4,16}, run under the race detector. Oracle: no race report that involves a listing function or the registry writers (registerConnection / unregisterConnection: the memory the listings read), no runtime fatal, and every returned list has no duplicates and equals the registered set at some logical-clock stamp inside the call (counts within the bounds of the call window); listings taken after all writers finished must match exactly. non-trivial = at least one listing call was overlapped by a write (measured with the stamps)",
+		"scenario: 0-48 stable players and 1-3 servers, default registration or onlineModeKickExistingPlayers; 1-6 writer goroutines (join via canRegisterConnection/registerConnection, put on / move between / take off server player lists by the backend play session handler's Activated()/Disconnected(), leave via connection close or Player.Disconnect - all through the real teardown path - and Register/Unregister of extra servers) against 1-6 reader goroutines cycling Players, PlayerCount, Servers, Players().Range/Len, PlayersToSlice and up to 2 DisconnectAll calls; 200-400 ops each (2000 thorough), GOMAXPROCS in {2,4,16}, run under the race detector. Oracle: no race report that involves a listing function or the registry writers (registerConnection / unregisterConnection: the memory the listings read), no runtime fatal, and every returned list has no duplicates and equals the registered set at some logical-clock stamp inside the call (counts within the bounds of the call window); listings taken after all writers finished must match exactly. non-trivial = at least one listing call was overlapped by a write (measured with the stamps)",
 		c12Gen, c12Run)
 }
